@@ -54,7 +54,7 @@ def _side_runs(tier):
         return job, r
 
     out, errs = {}, []
-    with cf.ThreadPoolExecutor(max_workers=4) as ex:
+    with cf.ThreadPoolExecutor(max_workers=5) as ex:
         for (name, mod, cfg, ctl), r in ex.map(one, jobs):
             if ctl is None:
                 if r.rc != 0 or "Error:" in r.out or not r.ok:
@@ -101,7 +101,9 @@ def signature(v):
 
 
 def _judge(recs, wd, name):
-    shards = kit.write_shards(recs, wd / "trace", name, 5000)
+    # one wave of at most 6 JVMs (TLC slots are machine-wide and scarce): <= 9000 traces a shard
+    per = min(9000, max(2000, -(-len(recs) // 6)))
+    shards = kit.write_shards(recs, wd / "trace", name, per)
     return kit.judge_shards("C01_Judge", "C01_Judge", shards, jvms=6, workers=3)
 
 
